@@ -1150,6 +1150,504 @@ fn part_adv() -> Acc {
     acc
 }
 
+
+// ------------------------------------------------------------------------------------ certificate conversion
+
+/// One name attribute of a Matter certificate: (context tag 1..=22, value).
+#[derive(Clone, Debug)]
+enum DnVal {
+    Int(u64),
+    Utf8(String),
+    Printable(String),
+}
+
+/// Every field of a Matter-TLV certificate (without the signature), as parameters.
+#[derive(Clone, Debug)]
+struct XSpec {
+    serial: Vec<u8>,
+    issuer: Vec<(u8, DnVal)>,
+    not_before: u32,
+    not_after: u32,
+    subject: Vec<(u8, DnVal)>,
+    pubkey: Vec<u8>,
+    basic: Option<(bool, Option<u8>)>,
+    key_usage: Option<u16>,
+    eku: Option<Vec<u8>>,
+    skid: Option<Vec<u8>>,
+    akid: Option<Vec<u8>>,
+    future: Vec<Vec<u8>>,
+}
+
+fn xspec_base() -> XSpec {
+    XSpec {
+        serial: vec![0x01],
+        issuer: vec![(20, DnVal::Int(1))],
+        not_before: 0x2000_0000,
+        not_after: 0x3000_0000,
+        subject: vec![(17, DnVal::Int(0x0102_0304_0506_0708)), (21, DnVal::Int(0xFAB0_0000_0000_001D))],
+        pubkey: (0..65u8).map(|i| if i == 0 { 4 } else { i.wrapping_mul(3) }).collect(),
+        basic: Some((false, None)),
+        key_usage: Some(0x0001),
+        eku: Some(vec![2, 1]),
+        skid: Some((1..=20).collect()),
+        akid: Some((21..=40).collect()),
+        future: vec![],
+    }
+}
+
+fn xspec_tlv(x: &XSpec) -> Vec<u8> {
+    use rs_matter::tlv::{TLVTag, TLVWrite};
+    use rs_matter::utils::storage::WriteBuf;
+    let mut buf = vec![0u8; 2048];
+    let mut tw = WriteBuf::new(&mut buf);
+    let dn = |tw: &mut WriteBuf<'_>, tag: u8, dn: &[(u8, DnVal)]| {
+        tw.start_list(&TLVTag::Context(tag)).unwrap();
+        for (t, v) in dn {
+            match v {
+                DnVal::Int(i) => tw.u64(&TLVTag::Context(*t), *i).unwrap(),
+                DnVal::Utf8(s) => tw.utf8(&TLVTag::Context(*t), s).unwrap(),
+                DnVal::Printable(s) => tw.utf8(&TLVTag::Context(*t | 0x80), s).unwrap(),
+            }
+        }
+        tw.end_container().unwrap();
+    };
+    tw.start_struct(&TLVTag::Anonymous).unwrap();
+    tw.str(&TLVTag::Context(1), &x.serial).unwrap();
+    tw.u8(&TLVTag::Context(2), 1).unwrap();
+    dn(&mut tw, 3, &x.issuer);
+    tw.u32(&TLVTag::Context(4), x.not_before).unwrap();
+    tw.u32(&TLVTag::Context(5), x.not_after).unwrap();
+    dn(&mut tw, 6, &x.subject);
+    tw.u8(&TLVTag::Context(7), 1).unwrap();
+    tw.u8(&TLVTag::Context(8), 1).unwrap();
+    tw.str(&TLVTag::Context(9), &x.pubkey).unwrap();
+    tw.start_list(&TLVTag::Context(10)).unwrap();
+    if let Some((ca, pl)) = x.basic {
+        tw.start_struct(&TLVTag::Context(1)).unwrap();
+        tw.bool(&TLVTag::Context(1), ca).unwrap();
+        if let Some(p) = pl {
+            tw.u8(&TLVTag::Context(2), p).unwrap();
+        }
+        tw.end_container().unwrap();
+    }
+    if let Some(ku) = x.key_usage {
+        tw.u16(&TLVTag::Context(2), ku).unwrap();
+    }
+    if let Some(eku) = &x.eku {
+        tw.start_array(&TLVTag::Context(3)).unwrap();
+        for e in eku {
+            tw.u8(&TLVTag::Anonymous, *e).unwrap();
+        }
+        tw.end_container().unwrap();
+    }
+    if let Some(k) = &x.skid {
+        tw.str(&TLVTag::Context(4), k).unwrap();
+    }
+    if let Some(k) = &x.akid {
+        tw.str(&TLVTag::Context(5), k).unwrap();
+    }
+    for f in &x.future {
+        tw.str(&TLVTag::Context(6), f).unwrap();
+    }
+    tw.end_container().unwrap();
+    tw.end_container().unwrap();
+    tw.as_slice().to_vec()
+}
+
+/// DER TLV with a minimal definite length.
+fn der(tag: u8, content: &[u8]) -> Vec<u8> {
+    let mut v = vec![tag];
+    let n = content.len();
+    if n < 128 {
+        v.push(n as u8);
+    } else if n < 256 {
+        v.extend_from_slice(&[0x81, n as u8]);
+    } else {
+        v.extend_from_slice(&[0x82, (n >> 8) as u8, n as u8]);
+    }
+    v.extend_from_slice(content);
+    v
+}
+
+fn der_cat(parts: &[Vec<u8>]) -> Vec<u8> {
+    parts.iter().flat_map(|p| p.iter().copied()).collect()
+}
+
+/// Civil date of a count of days since 1970-01-01 (proleptic Gregorian).
+fn civil(days: i64) -> (i64, u32, u32) {
+    let z = days + 719_468;
+    let era = z.div_euclid(146_097);
+    let doe = z.rem_euclid(146_097);
+    let yoe = (doe - doe / 1460 + doe / 36_524 - doe / 146_096) / 365;
+    let y = yoe + era * 400;
+    let doy = doe - (365 * yoe + yoe / 4 - yoe / 100);
+    let mp = (5 * doy + 2) / 153;
+    let d = (doy - (153 * mp + 2) / 5 + 1) as u32;
+    let m = if mp < 10 { mp + 3 } else { mp - 9 } as u32;
+    (if m <= 2 { y + 1 } else { y }, m, d)
+}
+
+/// X.509 time of a Matter-epoch second count (0 in not-after = no expiry).
+fn der_time(matter_secs: u32, is_not_after: bool) -> Vec<u8> {
+    if is_not_after && matter_secs == 0 {
+        return der(0x18, b"99991231235959Z");
+    }
+    let unix = matter_secs as i64 + 946_684_800;
+    let (y, m, d) = civil(unix.div_euclid(86_400));
+    let r = unix.rem_euclid(86_400);
+    let (hh, mm, ss) = (r / 3600, r % 3600 / 60, r % 60);
+    if y >= 2050 {
+        der(0x18, format!("{:04}{:02}{:02}{:02}{:02}{:02}Z", y, m, d, hh, mm, ss).as_bytes())
+    } else {
+        der(0x17, format!("{:02}{:02}{:02}{:02}{:02}{:02}Z", y % 100, m, d, hh, mm, ss).as_bytes())
+    }
+}
+
+fn dn_oid(tag: u8) -> Vec<u8> {
+    match tag {
+        1 => vec![0x55, 4, 3],
+        2 => vec![0x55, 4, 4],
+        3 => vec![0x55, 4, 5],
+        4 => vec![0x55, 4, 6],
+        5 => vec![0x55, 4, 7],
+        6 => vec![0x55, 4, 8],
+        7 => vec![0x55, 4, 10],
+        8 => vec![0x55, 4, 11],
+        9 => vec![0x55, 4, 12],
+        10 => vec![0x55, 4, 41],
+        11 => vec![0x55, 4, 42],
+        12 => vec![0x55, 4, 43],
+        13 => vec![0x55, 4, 44],
+        14 => vec![0x55, 4, 46],
+        15 => vec![0x55, 4, 65],
+        // 0.9.2342.19200300.100.1.25
+        16 => vec![0x09, 0x92, 0x26, 0x89, 0x93, 0xF2, 0x2C, 0x64, 0x01, 0x19],
+        // 1.3.6.1.4.1.37244.1.n
+        t => vec![0x2B, 0x06, 0x01, 0x04, 0x01, 0x82, 0xA2, 0x7C, 0x01, t - 16],
+    }
+}
+
+fn der_name(dn: &[(u8, DnVal)]) -> Vec<u8> {
+    let mut rdns = Vec::new();
+    for (t, v) in dn {
+        let val = match v {
+            DnVal::Int(i) if *t == 22 => der(0x0c, format!("{:08X}", i).as_bytes()),
+            DnVal::Int(i) => der(0x0c, format!("{:016X}", i).as_bytes()),
+            DnVal::Utf8(s) => der(0x0c, s.as_bytes()),
+            DnVal::Printable(s) => der(0x13, s.as_bytes()),
+        };
+        rdns.push(der(0x31, &der(0x30, &der_cat(&[der(0x06, &dn_oid(*t)), val]))));
+    }
+    der(0x30, &der_cat(&rdns))
+}
+
+/// KeyUsage as a DER BIT STRING: Matter bit 0 (digitalSignature) is X.509 bit 0 = the most significant bit.
+fn der_key_usage(ku: u16) -> Vec<u8> {
+    let mut bytes = [0u8; 2];
+    for bit in 0..16 {
+        if ku & (1 << bit) != 0 {
+            bytes[bit / 8] |= 0x80 >> (bit % 8);
+        }
+    }
+    let mut n = 2;
+    while n > 0 && bytes[n - 1] == 0 {
+        n -= 1;
+    }
+    let unused = if n == 0 { 0 } else { bytes[n - 1].trailing_zeros() as u8 };
+    let mut c = vec![unused];
+    c.extend_from_slice(&bytes[..n]);
+    der(0x03, &c)
+}
+
+fn der_ext(oid: &[u8], critical: bool, value: &[u8]) -> Vec<u8> {
+    let mut parts = vec![der(0x06, oid)];
+    if critical {
+        parts.push(der(0x01, &[0xff]));
+    }
+    parts.push(der(0x04, value));
+    der(0x30, &der_cat(&parts))
+}
+
+/// The X.509 TBSCertificate a Matter certificate stands for (Matter Core spec, operational certificate encoding).
+fn xspec_der(x: &XSpec) -> Vec<u8> {
+    let mut exts = Vec::new();
+    if let Some((ca, pl)) = x.basic {
+        let mut c = Vec::new();
+        if ca {
+            c.push(der(0x01, &[0xff]));
+        }
+        if let Some(p) = pl {
+            c.push(der(0x02, &if p >= 0x80 { vec![0, p] } else { vec![p] }));
+        }
+        exts.push(der_ext(&[0x55, 0x1d, 0x13], true, &der(0x30, &der_cat(&c))));
+    }
+    if let Some(ku) = x.key_usage {
+        exts.push(der_ext(&[0x55, 0x1d, 0x0f], true, &der_key_usage(ku)));
+    }
+    if let Some(eku) = &x.eku {
+        let oids: Vec<Vec<u8>> = eku.iter().map(|e| der(0x06, &[0x2B, 0x06, 0x01, 0x05, 0x05, 0x07, 0x03, match e { 1 => 1, 2 => 2, 3 => 3, 4 => 4, 5 => 8, _ => 9 }])).collect();
+        exts.push(der_ext(&[0x55, 0x1d, 0x25], true, &der(0x30, &der_cat(&oids))));
+    }
+    if let Some(k) = &x.skid {
+        exts.push(der_ext(&[0x55, 0x1d, 0x0e], false, &der(0x04, k)));
+    }
+    if let Some(k) = &x.akid {
+        exts.push(der_ext(&[0x55, 0x1d, 0x23], false, &der(0x30, &der(0x80, k))));
+    }
+    for f in &x.future {
+        exts.push(f.clone());
+    }
+    let mut pk = vec![0u8];
+    pk.extend_from_slice(&x.pubkey);
+    der(
+        0x30,
+        &der_cat(&[
+            der(0xa0, &der(0x02, &[2])),
+            der(0x02, &x.serial),
+            der(0x30, &der(0x06, &[0x2A, 0x86, 0x48, 0xCE, 0x3D, 0x04, 0x03, 0x02])),
+            der_name(&x.issuer),
+            der(0x30, &der_cat(&[der_time(x.not_before, false), der_time(x.not_after, true)])),
+            der_name(&x.subject),
+            der(0x30, &der_cat(&[der(0x30, &der_cat(&[der(0x06, &[0x2A, 0x86, 0x48, 0xCE, 0x3D, 0x02, 0x01]), der(0x06, &[0x2A, 0x86, 0x48, 0xCE, 0x3D, 0x03, 0x01, 0x07])])), der(0x03, &pk)])),
+            der(0xa3, &der(0x30, &der_cat(&exts))),
+        ]),
+    )
+}
+
+fn xspec_catalog(tier: Tier) -> Vec<(String, XSpec, bool)> {
+    // (label, spec, may_be_refused): the last flag marks inputs no issuer would produce, for which an
+    // error is as good as the exact conversion
+    let b = xspec_base();
+    let mut v: Vec<(String, XSpec, bool)> = vec![("base".into(), b.clone(), false)];
+    for n in [1usize, 2, 8, 19, 20] {
+        for first in [0x00u8, 0x01, 0x7f, 0x80, 0xff] {
+            let mut x = b.clone();
+            x.serial = (0..n).map(|i| if i == 0 { first } else { 0xA0 + i as u8 }).collect();
+            v.push((format!("serial-{}-bytes-first-{:02x}", n, first), x, false));
+        }
+    }
+    // validity: epoch, every calendar boundary, the UTCTime / GeneralizedTime switch at 2050, the last value
+    let y2050 = 1_577_923_200u32; // 2050-01-01T00:00:00Z in Matter-epoch seconds
+    let mut times = vec![0u32, 1, 59, 60, 3599, 3600, 86_399, 86_400, 5_097_599, 5_097_600, 5_184_000, 31_622_399, 31_622_400, y2050 - 1, y2050, y2050 + 1, 0x7fff_ffff, 0x8000_0000, 0xffff_fffe, 0xffff_ffff];
+    // the last second of February and the first of March, 2000 (leap, divisible by 400) .. 2104
+    for year in [2000i64, 2001, 2004, 2023, 2024, 2049, 2050, 2096, 2100, 2104] {
+        let mut days = 0i64;
+        for y in 2000..year {
+            days += if (y % 4 == 0 && y % 100 != 0) || y % 400 == 0 { 366 } else { 365 };
+        }
+        let leap = (year % 4 == 0 && year % 100 != 0) || year % 400 == 0;
+        let mar1 = days + 31 + if leap { 29 } else { 28 };
+        for t in [mar1 * 86_400 - 1, mar1 * 86_400, (days + 365 + leap as i64) * 86_400 - 1] {
+            if (0..=u32::MAX as i64).contains(&t) {
+                times.push(t as u32);
+            }
+        }
+    }
+    if tier == Tier::Thorough {
+        // the first second of every month from 2000 to 2136
+        let mut days = 0i64;
+        for year in 2000..2136i64 {
+            let leap = (year % 4 == 0 && year % 100 != 0) || year % 400 == 0;
+            for m in [31, if leap { 29 } else { 28 }, 31, 30, 31, 30, 31, 31, 30, 31, 30, 31] {
+                let t = days * 86_400;
+                if t <= u32::MAX as i64 {
+                    times.push(t as u32);
+                }
+                days += m;
+            }
+        }
+    }
+    times.sort();
+    times.dedup();
+    for &t in &times {
+        let mut x = b.clone();
+        x.not_before = t;
+        v.push((format!("not-before-{}", t), x, false));
+        let mut x = b.clone();
+        x.not_after = t;
+        v.push((format!("not-after-{}", t), x, false));
+    }
+    // names: every attribute kind, as integer (Matter ids) or string (standard attributes), both string types
+    for tag in 1..=22u8 {
+        for which in 0..2 {
+            let vals: Vec<DnVal> = if tag >= 17 {
+                [0u64, 1, 0xffff_ffff, 0x1_0000_0000, u64::MAX].iter().map(|i| DnVal::Int(if tag == 22 { *i & 0xffff_ffff } else { *i })).collect()
+            } else {
+                vec![DnVal::Utf8("".into()), DnVal::Utf8("A".into()), DnVal::Utf8("Zürich é".into()), DnVal::Printable("Test CA 01".into()), DnVal::Utf8("x".repeat(64)), DnVal::Printable("y".repeat(127))]
+            };
+            for (i, val) in vals.into_iter().enumerate() {
+                let mut x = b.clone();
+                let list = if which == 0 { &mut x.subject } else { &mut x.issuer };
+                list.insert(0, (tag, val));
+                v.push((format!("{}-attribute-{}-value-{}", if which == 0 { "subject" } else { "issuer" }, tag, i), x, false));
+            }
+        }
+    }
+    for n in [0usize, 1, 3, 5] {
+        let mut x = b.clone();
+        x.subject = (0..n).map(|i| (22u8, DnVal::Int(0x0001_0001 + i as u64))).collect();
+        x.subject.push((17, DnVal::Int(7)));
+        v.push((format!("subject-with-{}-cats", n), x, false));
+    }
+    {
+        let mut x = b.clone();
+        x.subject.clear();
+        x.issuer.clear();
+        v.push(("empty-names".into(), x, true));
+    }
+    // extensions
+    for ku in 0..512u16 {
+        let mut x = b.clone();
+        x.key_usage = Some(ku);
+        v.push((format!("key-usage-{:#05x}", ku), x, ku == 0));
+    }
+    for ku in [0x0200u16, 0x8000, 0xffff] {
+        let mut x = b.clone();
+        x.key_usage = Some(ku);
+        v.push((format!("key-usage-{:#06x}", ku), x, true));
+    }
+    for ca in [false, true] {
+        for pl in [None, Some(0u8), Some(1), Some(127), Some(128), Some(255)] {
+            let mut x = b.clone();
+            x.basic = Some((ca, pl));
+            v.push((format!("basic-constraints-ca-{}-path-{:?}", ca, pl), x, pl.map(|p| p >= 128).unwrap_or(false)));
+        }
+    }
+    for mask in 0..64u8 {
+        let mut x = b.clone();
+        x.eku = Some((1..=6u8).filter(|i| mask & (1 << (i - 1)) != 0).collect());
+        v.push((format!("extended-key-usage-set-{:#04x}", mask), x, mask == 0));
+    }
+    for order in [vec![2u8, 1], vec![1, 2], vec![6, 5, 4, 3, 2, 1], vec![1, 1]] {
+        let mut x = b.clone();
+        x.eku = Some(order.clone());
+        v.push((format!("extended-key-usage-order-{:?}", order), x, false));
+    }
+    for n in [0usize, 1, 19, 20, 21, 32] {
+        let mut x = b.clone();
+        x.skid = Some((0..n as u8).collect());
+        v.push((format!("subject-key-id-{}-bytes", n), x, n != 20));
+        let mut x = b.clone();
+        x.akid = Some((0..n as u8).collect());
+        v.push((format!("authority-key-id-{}-bytes", n), x, n != 20));
+    }
+    // absent optional extensions, and extension order as issued
+    for drop in 0..5 {
+        let mut x = b.clone();
+        match drop {
+            0 => x.basic = None,
+            1 => x.key_usage = None,
+            2 => x.eku = None,
+            3 => x.skid = None,
+            _ => x.akid = None,
+        }
+        v.push((format!("extension-{}-absent", drop), x, false));
+    }
+    let fut = |oid_last: u8, critical: bool, val: &[u8]| der_ext(&[0x55, 0x1d, oid_last], critical, val);
+    for (i, blobs) in [vec![fut(0x63, false, &[])], vec![fut(0x63, false, &[5, 0]), fut(0x64, false, &[4, 1, 0xAA])], vec![der_cat(&[fut(0x63, false, &[]), fut(0x64, false, &[])])], vec![fut(0x63, false, &[0x5a; 130])], vec![fut(0x63, false, &[0x5a; 300])]]
+        .into_iter()
+        .enumerate()
+    {
+        let mut x = b.clone();
+        x.future = blobs;
+        v.push((format!("future-extensions-{}", i), x, false));
+    }
+    {
+        let mut x = b.clone();
+        x.pubkey = vec![4; 65];
+        x.pubkey[64] = 0;
+        v.push(("public-key-ending-in-zero".into(), x, false));
+        let mut x = b.clone();
+        x.pubkey = vec![];
+        v.push(("public-key-empty".into(), x, true));
+    }
+    v
+}
+
+fn part_cert_conversion(tier: Tier) -> Acc {
+    use rs_matter::cert::CertRef;
+    use rs_matter::tlv::TLVElement;
+    let mut acc = Acc::default();
+    let convert = |tlv: &[u8], cap: usize| -> Result<Result<Vec<u8>, String>, common::Panic> {
+        common::catch(|| {
+            let mut out = vec![0u8; cap];
+            CertRef::new(TLVElement::new(tlv)).as_asn1(&mut out).map(|n| out[..n.min(cap)].to_vec()).map_err(|e| format!("{:?}", e.code()))
+        })
+    };
+    let cat = xspec_catalog(tier);
+    let mut valid: Vec<Vec<u8>> = Vec::new();
+    for (label, x, may_refuse) in &cat {
+        let tlv = xspec_tlv(x);
+        let want = xspec_der(x);
+        acc.round_trips += 1;
+        let replay = json!({"format": "certificate-conversion", "label": label, "hex": hex(&tlv)});
+        match convert(&tlv, 2048) {
+            Err(p) => acc.v("certificate-conversion", &format!("panic:{}", p.class()), format!("{}: {}", label, p), replay),
+            Ok(Err(e)) => {
+                acc.outcomes.insert(format!("cert:refused:{}", e));
+                if !*may_refuse {
+                    acc.v("certificate-conversion", "well-formed-certificate-not-converted", format!("{}: {}", label, e), replay);
+                }
+            }
+            Ok(Ok(got)) => {
+                acc.outcomes.insert("cert:converted".into());
+                if got != want {
+                    let pos = got.iter().zip(want.iter()).position(|(a, b)| a != b).unwrap_or(got.len().min(want.len()));
+                    let class: String = label.chars().filter(|c| !c.is_ascii_digit()).collect::<String>().replace("(", "-").replace(")", "").trim_end_matches('-').to_string();
+                    acc.v("certificate-conversion", &format!("x509-form-differs:{}", class), format!("{}: {} bytes produced, {} expected, first difference at offset {}: produced ..{} expected ..{}", label, got.len(), want.len(), pos, hex(&got[pos.saturating_sub(4)..(pos + 12).min(got.len())]), hex(&want[pos.saturating_sub(4)..(pos + 12).min(want.len())])), replay);
+                } else if valid.len() < 6 && (label == "base" || label.starts_with("future-extensions-1") || label.starts_with("subject-attribute-7-value-3") || label.starts_with("subject-with-3")) {
+                    valid.push(tlv.clone());
+                }
+            }
+        }
+    }
+    // every output capacity from 0 to the exact length: an error, never a panic or a short result
+    if let Some(tlv) = valid.first() {
+        let full = convert(tlv, 2048).ok().and_then(|r| r.ok()).unwrap_or_default();
+        for cap in 0..=full.len() + 16 {
+            acc.hostile += 1;
+            match convert(tlv, cap) {
+                Err(p) => acc.v("certificate-conversion", &format!("panic:{}", p.class()), format!("output capacity {}: {}", cap, p), json!({"format": "certificate-conversion", "hex": hex(tlv), "capacity": cap})),
+                Ok(Ok(got)) => {
+                    acc.hostile_ok += 1;
+                    if got != full {
+                        acc.v("certificate-conversion", "short-buffer-yields-a-different-result", format!("capacity {} -> {} bytes, expected an error or the {} byte result", cap, got.len(), full.len()), json!({"format": "certificate-conversion", "hex": hex(tlv), "capacity": cap}));
+                    }
+                }
+                // (the writer reserves three length octets per open container, so a buffer of exactly the
+                // result's size is refused: conservative, and not something the property speaks about)
+                Ok(Err(_)) => acc.hostile_err += 1,
+            }
+        }
+    }
+    // hostile input: short strings and every truncation / extension / per-byte substitution of valid certificates
+    let mut inputs = short_strings(if tier == Tier::Quick { 4 } else { 5 });
+    for vtlv in &valid {
+        inputs.extend(mutations(vtlv));
+    }
+    for inp in inputs {
+        acc.hostile += 1;
+        match convert(&inp, 2048) {
+            Err(p) => acc.v("certificate-conversion", &format!("panic:{}", p.class()), p.to_string(), bytes_replay("certificate-conversion", &inp)),
+            Ok(Ok(got)) => {
+                acc.hostile_ok += 1;
+                // whatever was produced must be one DER SEQUENCE whose length covers the output exactly
+                let ok = got.len() >= 2 && got[0] == 0x30 && match got[1] {
+                    n if n < 0x80 => got.len() == 2 + n as usize,
+                    0x81 => got.len() >= 3 && got.len() == 3 + got[2] as usize,
+                    0x82 => got.len() >= 4 && got.len() == 4 + ((got[2] as usize) << 8 | got[3] as usize),
+                    _ => false,
+                };
+                if !ok {
+                    acc.v("certificate-conversion", "output-is-not-one-der-sequence", format!("{} bytes starting {}", got.len(), hex(&got[..got.len().min(6)])), bytes_replay("certificate-conversion", &inp));
+                }
+            }
+            Ok(Err(_)) => acc.hostile_err += 1,
+        }
+    }
+    acc
+}
+
 // ------------------------------------------------------------------------------------ mDNS
 
 fn part_mdns() -> Acc {
@@ -1348,6 +1846,7 @@ fn replay(ctx: &Ctx, path: &std::path::Path) -> i32 {
         "qr" => part_qr(Tier::Quick),
         "ble-advertisement" => part_adv(),
         "mdns" => part_mdns(),
+        "certificate-conversion" => part_cert_conversion(Tier::Quick),
         _ => part_bdx(),
     };
     let want = doc["signature"].as_str().unwrap_or("");
@@ -1377,6 +1876,7 @@ pub fn run_check(ctx: &Ctx) -> i32 {
         ("qr", Box::new(move || part_qr(tier))),
         ("ble-advertisement", Box::new(part_adv)),
         ("mdns", Box::new(part_mdns)),
+        ("certificate-conversion", Box::new(move || part_cert_conversion(tier))),
     ];
     let results: Vec<(&str, Result<Acc, common::Panic>, f64)> = parts
         .par_iter()
@@ -1410,7 +1910,7 @@ pub fn run_check(ctx: &Ctx) -> i32 {
         .set("hostile_inputs", json!(total.hostile))
         .set("refusals_checked", json!(total.refusals_checked))
         .set("exhaustive_within_bound", json!(true));
-    ev.assume("covered formats: message header, protocol header, status report, the five BDX message layouts, check-in message, base-38, QR payload, manual pairing code, BLE advertisement, mDNS announcement / query / answer; the certificate conversion between Matter and X.509 form is exercised through C19 (every generated certificate is converted for signing and again for verification), the certification declaration decoder is not covered");
+    ev.assume("covered formats: message header, protocol header, status report, the five BDX message layouts, check-in message, base-38, QR payload, manual pairing code, BLE advertisement, mDNS announcement / query / answer, the Matter -> X.509 certificate conversion (against an independent DER writer in the harness; the repo has no X.509 -> Matter direction for operational certificates); the certification declaration decoder is not covered");
     ev.assume("field values outside the boundary alphabets behave like their neighbours in the alphabet");
     if total.round_trips < 1000 || total.hostile_err == 0 || total.hostile_ok == 0 {
         eprintln!("MACHINERY: vacuous C17 run");
